@@ -186,17 +186,36 @@ func (env *e2eEnv) run(n int, a e2eAttempt, baseline int) (res e2eResult) {
 		}()
 	}
 	t0 := time.Now()
+	panicked := false
+	streamDone := make(chan struct{})
 	res.returned = within(5*time.Second, func() {
+		defer close(streamDone)
+		defer func() {
+			if r := recover(); r != nil {
+				panicked = true
+			}
+		}()
 		res.streamErr = env.s.Stream(ctx, handler)
 	})
 	res.elapsed = time.Since(t0)
 	atomic.StoreInt32(&returned, 1)
 	if !res.returned {
-		res.outcome = "blocked"
+		// blocked: release it, and let the goroutine finish before its results are read
 		cancel()
+		openGate()
+		select {
+		case <-streamDone:
+		case <-time.After(3 * time.Second):
+		}
+		res.outcome = "blocked"
+		res.calls, res.snapshots, res.txs = nil, nil, nil
 		return
 	}
 	res.outcome = streamErrClass(res.streamErr)
+	if panicked {
+		res.outcome = "panic"
+		return
+	}
 	if res.streamErr != nil && strings.HasPrefix(res.outcome, "other:") {
 		res.outcome = "connect-or-dump-error"
 	}
@@ -359,7 +378,7 @@ func e2eResume(c *Ctx) {
 func e2eAttempts(c *Ctx) {
 	r := c.Rng
 	base := libraryGoroutines()
-	faults := []string{"close", "reset", "short", "outofseq", "err", "eof", "cancel-idle", "cancel-handler", "handler-err"}
+	faults := []string{"close", "reset", "short", "outofseq", "err", "eof", "cancel-idle", "cancel-handler", "handler-err", "cancel-handler-err"}
 	for k := 0; k < c.N(6, 120); k++ {
 		cfg := baseCfgs[r.Intn(len(baseCfgs))]
 		h := genHistory(r, cfg, histOpts{units: 4 + r.Intn(5), maxCols: 3, maxRows: 2, rotations: true, ignorables: k%2 == 0})
@@ -396,9 +415,18 @@ func e2eAttempts(c *Ctx) {
 						case "cancel-idle":
 							a.events, a.terminal, a.cancelWhenIdle = evs[:cut], "hang", true
 						case "cancel-handler":
-							a.cancelInHandler, a.terminal = 0, "hang"
+							// the master ends the stream if the fault never triggers (no transaction left)
+							a.cancelInHandler, a.terminal = 0, "eof"
 						case "handler-err":
-							a.verdicts, a.terminal = []bool{r.Bool(), false}, "hang"
+							a.verdicts, a.terminal = []bool{r.Bool(), false}, "eof"
+						case "cancel-handler-err":
+							// the handler gives up because the caller is shutting down: it cancels and reports failure
+							k := r.Intn(2)
+							a.verdicts = make([]bool, k+1)
+							for i := range a.verdicts {
+								a.verdicts[i] = i != k
+							}
+							a.cancelInHandler, a.terminal = k, "eof"
 						}
 						if lockstep && a.holdAfter < 0 && len(a.events) > 2 {
 							a.holdAfter = 2 + r.Intn(len(a.events)-2)
